@@ -113,6 +113,8 @@ inductive Op where
   | setAlpha (alphabet : Int)
   /-- `ReverseComplementSequences(names...)` -/
   | revcompSeqs (names : List String)
+  | diffFirst            -- DiffWithFirst
+  | replaceMatch         -- ReplaceMatchChars
 deriving Repr
 
 /-- the float threshold test of the cleaning functions: `cutoff = num/den` as `float64` -/
@@ -214,6 +216,16 @@ def stepOp (b : Bag) : Op → Bag × String
     let r := renameRegexp names b; (r.1, "ok" ++ mapStatus r.2)
   | .setAlpha a => let r := setAlphabet a b; (r.1, if r.2 then "err" else "ok")
   | .revcompSeqs names => let r := reverseComplementSequences names b; (r.1, if r.2 then "err" else "ok")
+  | .diffFirst =>
+    if !b.isAlign then (b, "na") else
+    match diffWithFirstBag b with
+    | none => (b, "PANIC")
+    | some r => (r, "ok")
+  | .replaceMatch =>
+    if !b.isAlign then (b, "na") else
+    match replaceMatchCharsBag b with
+    | none => (b, "PANIC")
+    | some r => (r, "ok")
 
 /-- run a history, collecting the states after every step -/
 def runOps : Bag → List Op → List (Bag × String)
